@@ -79,6 +79,7 @@ type qosRun struct {
 	gatedStep   map[uint64]int // uid -> index of the step in which it was published while the loop was parked
 	fault       bool           // the step being executed runs with failing writes on S\'s connection
 	ng          *ngate         // parks allocators inside NextPacketID (forced schedules)
+	wl, pa      *ngate         // write loop / publish.afterAlias gates (quota schedules)
 	monitorOnly bool           // the history is judged by the monitors only
 	padTo       int            // payload length of the next publishes (write-buffer bursts)
 	wbuf        int            // write-buffer histories: ClientNetWriteBufferSize in force
@@ -359,7 +360,7 @@ func (q *qosRun) publishP(k int, t int, qos byte, mei uint32) {
 			nDropEv++
 		}
 	}
-	qfull := nDropEv > q.dropCount()-q.lastDrop
+	qfull := !q.fault && nDropEv > q.dropCount()-q.lastDrop // under fault injection the report means "could not be written"
 	if qfull {
 		op[8] = sx.N(1)
 	}
@@ -420,6 +421,8 @@ func (q *qosRun) gatedBurst(n int) {
 type ngate struct {
 	mu      sync.Mutex
 	point   string
+	limit   int // > 0: park only while fewer than this many are parked (counted from base)
+	base    int
 	armed   bool
 	waiters []chan struct{}
 }
@@ -429,7 +432,7 @@ func (g *ngate) hook(name string) {
 		return
 	}
 	g.mu.Lock()
-	if !g.armed {
+	if !g.armed || (g.limit > 0 && len(g.waiters)-g.base >= g.limit) {
 		g.mu.Unlock()
 		return
 	}
@@ -597,6 +600,106 @@ func (q *qosRun) snapSx() sx.V {
 	}
 	return sx.L{sx.Bool(me.Connected), infl, zz(int64(me.SendQuota)), zz(int64(me.RecvQuota)),
 		zz(int64(me.MaxSendQuota)), zz(int64(me.MaxRecvQuota)), sx.N(uint64(me.PacketID))}
+}
+
+// faultyDeliver: the write loop cannot write a QUEUED delivery to S (MemConn.WriteErr while another client publishes
+// to S): publishToClient has recorded the message and taken its quota; nothing may be rolled back.  Then the
+// connection is dropped and the session resumed: the message must be redelivered.
+func (q *qosRun) faultyDeliver(c qosCfg, qos byte) {
+	if !q.sConnected() || !q.sSubscribed() {
+		return
+	}
+	q.fault = true
+	q.s.MC.WriteErr = io.ErrClosedPipe
+	q.publishP(q.rng.Intn(2), q.rng.Intn(2), qos, 0)
+	q.fault = false
+	if q.sConnected() {
+		q.disconnectS(false)
+	}
+	q.reconnect(c, false)
+}
+
+// quotaSched: forced schedule across publishToClient's queue-full rollback.  S's write loop is parked (write.beforeLock)
+// holding a QoS 0 message, the outbound queue (capacity 1) is empty.  Delivery A (QoS 1) is parked at schedule point
+// publish.afterAlias: it has recorded its message and taken a unit of send quota.  Delivery B (QoS 1) runs through and
+// fills the queue.  A is released, finds the queue full and rolls back: its own unit must come back, not B's.  Then the
+// write loop is released.  The history is reported in wire order (monitor-only); the following ordinary publishes show
+// on the wire whether more QoS 1/2 PUBLISH packets are in transit than the client's receive maximum.
+func (q *qosRun) quotaSched() {
+	if q.wl == nil || !q.sConnected() || !q.sSubscribed() {
+		return
+	}
+	mkop := func(k int, qos byte, u uint64, now int64, qfull bool) sx.L {
+		return sx.L{sx.N(1), sx.N(uint64(qos)), sx.N(uint64(q.subqos)), sx.N(u), sx.N(uint64(k * 2)), zz(now), sx.N(0),
+			sx.Bool(k == 0), sx.Bool(qfull)}
+	}
+	feed := func(k int, qos byte) (uint64, int64) {
+		now := q.begin()
+		q.uid++
+		pk := broker.PublishPk("p/a", []byte(strconv.FormatUint(q.uid, 10)), qos, false, 0)
+		if qos > 0 {
+			pk.PacketID = 1
+		}
+		pk.ProtocolVersion = q.p[k].Version
+		data, _ := broker.Encode(pk)
+		q.b.Feed(q.p[k], data)
+		return q.uid, now
+	}
+	wl, pa := q.wl, q.pa
+	wl.mu.Lock()
+	wl.base, wl.limit, wl.armed = len(wl.waiters), 1, true
+	wl.mu.Unlock()
+	u0, n0 := feed(2, 0) // the message the write loop parks with
+	ok := waitFor(func() bool { return wl.count() == wl.base+1 && q.p[2].Parked() })
+	pa.mu.Lock()
+	pa.base, pa.limit, pa.armed = len(pa.waiters), 1, true
+	pa.mu.Unlock()
+	var uA, uB uint64
+	var nA, nB int64
+	if ok {
+		uA, nA = feed(0, 1)
+		ok = waitFor(func() bool { return pa.count() == pa.base+1 }) // A parked between quota and queue
+	}
+	if ok {
+		uB, nB = feed(1, 1)
+		ok = waitFor(func() bool { return q.p[1].Parked() }) // B went through and is queued
+	}
+	pa.arm(false)
+	for j := pa.base; j < pa.count(); j++ {
+		pa.release(j)
+	}
+	if ok {
+		ok = waitFor(func() bool { return q.p[0].Parked() }) // A has met the full queue and rolled back
+	}
+	wl.arm(false)
+	for j := wl.base; j < wl.count(); j++ {
+		wl.release(j)
+	}
+	q.b.Quiesce()
+	if !ok {
+		q.b.Hung = true
+		return
+	}
+	q.monitorOnly = true
+	// was A really dropped?  (if the schedule did not produce the rollback the history is still a valid observation)
+	dropped := false
+	evs := q.b.Rec.All()
+	for i := q.evPos; i < len(evs); i++ {
+		if evs[i].Name == "PublishDropped" && evs[i].Client == "s" && uidOf(evs[i].Pk.Payload) == uA {
+			dropped = true
+		}
+	}
+	empty := func() sx.L { return sx.L{sx.L{}, sx.L{}, sx.N(0), sx.L{}, q.snapSx()} }
+	q.steps = append(q.steps, sx.L{mkop(2, 0, u0, n0, false), empty()})
+	oa := empty()
+	if dropped {
+		oa[3] = sx.L{sx.N(uA)}
+	}
+	q.steps = append(q.steps, sx.L{mkop(0, 1, uA, nA, dropped), oa})
+	q.lastDrop = q.dropCount()
+	q.observe(mkop(1, 1, uB, nB, false), 0) // everything S received, in wire order
+	step := q.steps[len(q.steps)-1].(sx.L)
+	step[1].(sx.L)[3] = sx.L{} // the drop report belongs to A's step
 }
 
 // faulty runs one client step f with every write to S's connection failing (MemConn.WriteErr: broken pipe at the
@@ -795,6 +898,7 @@ type qosCfg struct {
 	sleepy  bool
 	faults  bool   // random steps include client packets whose answer cannot be written
 	sched   int    // > 0: forced schedules inside NextPacketID with this many concurrent allocators
+	qsched  bool   // forced schedules across the queue-full rollback (C11)
 	gate    bool   // MaximumClientWritesPending = 1 and forced queue-full bursts
 	wbuf    int    // > 0: write-buffer bursts with this ClientNetWriteBufferSize (monitor-only histories)
 	word    []byte // exhaustive stream: a word over the symbolic alphabet a..g
@@ -806,6 +910,9 @@ func runQosHistory(seed int64, c qosCfg, trace bool) sx.V {
 	caps.ReceiveMaximum = c.srvrm
 	caps.MaximumInflight = c.maxinfl
 	var g *gate
+	if c.qsched {
+		caps.MaximumClientWritesPending = 1
+	}
 	if c.gate {
 		caps.MaximumClientWritesPending = 1
 		g = &gate{}
@@ -813,7 +920,7 @@ func runQosHistory(seed int64, c qosCfg, trace bool) sx.V {
 	} else if c.wbuf > 0 {
 		g = &gate{}
 		mqtt.VerifPointHook = g.hook
-	} else if c.sched > 0 {
+	} else if c.sched > 0 || c.qsched {
 		mqtt.VerifPointHook = nil
 	} else {
 		mqtt.VerifPointHook = nil
@@ -836,6 +943,18 @@ func runQosHistory(seed int64, c qosCfg, trace bool) sx.V {
 	q.connectS(c.v5, c.clean, c.sei, c.rm)
 	q.subscribeS()
 	q.runScript(c)
+	if c.qsched {
+		q.wl = &ngate{point: "write.beforeLock"}
+		q.pa = &ngate{point: "publish.afterAlias"}
+		mqtt.VerifPointHook = func(name string) { q.wl.hook(name); q.pa.hook(name) }
+		for j := q.rng.Intn(2); j > 0; j-- {
+			q.publishP(q.rng.Intn(2), 0, 1, 0)
+		}
+		q.quotaSched()
+		for j := 0; j < 5 && !b.Hung; j++ { // ordinary deliveries: how many reach the wire unacknowledged?
+			q.publishP(q.rng.Intn(2), 0, byte(1+q.rng.Intn(2)), 0)
+		}
+	}
 	if c.sched > 0 {
 		q.ng = &ngate{point: "nextid.inside"}
 		mqtt.VerifPointHook = q.ng.hook
@@ -981,6 +1100,14 @@ func (q *qosRun) runScript(c qosCfg) {
 		for i := 0; i < 2 && len(q.pend) > 0; i++ {
 			q.ackNext(0, 0)
 		}
+	case "c09h": // the write loop cannot write a queued QoS 1 delivery: it stays in the session and is redelivered
+		q.faultyDeliver(c, 1)
+		for len(q.pend) > 0 {
+			q.ackNext(0, 0)
+		}
+	case "c09i": // the same for QoS 2
+		q.faultyDeliver(c, 2)
+		q.faultyDeliver(c, 1)
 	case "c09g": // the PUBCOMP answering S's PUBREL cannot be written
 		q.publishS(2, 5, false, 0)
 		q.faulty(c, func() { q.ackS(packets.Pubrel, 5, 0) })
@@ -1065,7 +1192,7 @@ func (q *qosRun) randomStep(c qosCfg) {
 	r := q.rng
 	if c.faults && q.sConnected() && r.Intn(8) == 0 {
 		// a client packet whose answer the broker fails to write
-		switch k := r.Intn(6); {
+		switch k := r.Intn(7); {
 		case k < 3 && len(q.pend) > 0:
 			q.faulty(c, func() { q.ackNext(r.Intn(len(q.pend)), 0) })
 		case k < 4 && len(q.open2) > 0:
@@ -1073,6 +1200,8 @@ func (q *qosRun) randomStep(c qosCfg) {
 			q.faulty(c, func() { q.ackS(packets.Pubrel, o.pid, 0) })
 		case k < 5:
 			q.faulty(c, func() { q.publishS(byte(1+r.Intn(2)), q.freshPid(), false, 0) })
+		case k < 6:
+			q.faultyDeliver(c, byte(r.Intn(3)))
 		default:
 			q.faulty(c, func() { q.pingS() })
 		}
@@ -1176,9 +1305,12 @@ func engQos(seed int64, tier string, args []string, out *sx.Out) {
 	only := ""
 	wbuf := false
 	sched := false
+	qsched := false
 	for _, a := range args {
 		if a == "trace" {
 			trace = true
+		} else if a == "qsched" {
+			qsched = true // C11 only: forced schedules across the queue-full rollback
 		} else if a == "sched" {
 			sched = true // C10 only: forced schedules inside NextPacketID
 		} else if a == "wbuf" {
@@ -1188,7 +1320,7 @@ func engQos(seed int64, tier string, args []string, out *sx.Out) {
 		}
 	}
 	rng := rand.New(rand.NewSource(seed))
-	scripts := []string{"c08", "c08r", "c08f", "c09", "c09f", "c09g", "c10a", "c10b", "c10c", "c10d", "c11a", "c11b", "c11c", "c11d", "c11e", "c11f",
+	scripts := []string{"c08", "c08r", "c08f", "c09", "c09f", "c09g", "c09h", "c09i", "c10a", "c10b", "c10c", "c10d", "c11a", "c11b", "c11c", "c11d", "c11e", "c11f",
 		"c11g", "c11h", "c12a", "c12b"}
 	nrandom := 230
 	if tier == "thorough" {
@@ -1219,7 +1351,7 @@ func engQos(seed int64, tier string, args []string, out *sx.Out) {
 			if s == "c12a" || s == "c12b" || s == "c09" {
 				c.srvrm = 4
 			}
-			if s == "c08" || s == "c08r" || s == "c11g" || s == "c08f" || s == "c09f" || s == "c09g" {
+			if s == "c08" || s == "c08r" || s == "c11g" || s == "c08f" || s == "c09f" || s == "c09g" || s == "c09h" || s == "c09i" {
 				c.srvrm = 2
 			}
 			if s == "c10d" {
@@ -1227,6 +1359,17 @@ func engQos(seed int64, tier string, args []string, out *sx.Out) {
 			}
 			emit(c)
 			c.steps = 12
+			emit(c)
+		}
+	}
+	if qsched {
+		nq := 12
+		if tier == "thorough" {
+			nq = 150
+		}
+		for i := 0; i < nq && (only == "" || only == "qs"); i++ {
+			c := base
+			c.maxpid, c.srvrm, c.rm, c.qsched = 65535, 4, uint16(3+i%2), true // room for A and B; 5 more deliveries reach the limit
 			emit(c)
 		}
 	}
